@@ -1,6 +1,16 @@
 import CGV.Props.C10
+import CGV.Props.C10Multi
+import CGV.Props.C10Reach
 #print axioms CGV.C10.C10_one_fewer
 #print axioms CGV.C10.C10_others_kept
 #print axioms CGV.C10.C10_removed_gone
 #print axioms CGV.C10.C10_membership
 #print axioms CGV.C10.C10_bonds_kept
+#print axioms CGV.C10.resolve_alive
+#print axioms CGV.C10.C10_count
+#print axioms CGV.C10.C10_separate_pairs
+#print axioms CGV.C10.C10_at_most
+#print axioms CGV.C10.C10_untouched
+#print axioms CGV.C10.phaseA_wellformed
+#print axioms CGV.C10.C10_resolver_count
+#print axioms CGV.C10.fragsWFb_iff
